@@ -110,6 +110,18 @@ CLAIMS = {
         'no randomness, time or thread id in row values; fast_concatenate has one index map on both paths, tiling block tables and a total dispatch of thread ids.',
    note='Assumed: floor(T*N1/(N1+N2)) <= T-1 for N2>0 (real arithmetic). Bitwise float equality under fastmath is argued from purity (no cross-row arithmetic), not separately decided.',
    design_ref='DESIGN.md section 4, C10'),
+ 'C11': dict(
+   technique='static analysis: modular array-bounds prover (syntax-directed abstract interpretation with linear-integer entailment by Fourier-Motzkin, case symbols, loop lemmas for block tables / counters / search cursors / content invariants) relative to written kernel contracts',
+   text='Decides, for every numba kernel of the eight anchored files and every scalar subscript on every axis, that the index stays within [-dim, dim) for all sizes, flags and loop iterations: PROVEN from the code alone, or ASSUMED relative to a named contract entry (docstring precondition or caller fact, printed with its reason); '
+        'refutations carry a small integer witness; an access decided on the reviewed tree that can no longer be decided is reported as a lost proof.',
+   note='Contracts (avs/spec/contracts.py) are reviewed data and part of the trusted base; value-dependent accesses (prefix-sum cursors, float->int truncation of in-domain positions, equidistant interpolation grids, the experimental NFW path) are ASSUMED, each with its reason. numba code generation is not modelled.',
+   design_ref='DESIGN.md section 4, C11'),
+ 'C13': dict(
+   technique='static analysis: interprocedural dependence (information-flow) analysis with shape/value separation and per-key tracking of result dictionaries; ownership classification of stores under prange',
+   text='Decides only the second sentence of C13 and the schedule part of the first: neither the values nor the lengths of pos, w, pos2, w2 can reach N_mode, N_mode_poles, the k and mu range columns or the shape of any result column of calc_power (with a positive control that the power column does depend on them); '
+        'every store under prange in the kernels on that path is private, so the thread count only changes floating-point summation order.',
+   note='NOT decided: permutation, translation and cross=auto invariance (numerical identities of the pipeline; e.g. mis-indexed interlacing phases or transposed compensation axes are invisible to these rules). Termination-insensitive; library calls modelled conservatively.',
+   design_ref='DESIGN.md section 4, C13'),
 }
 _NB = 'rule family not built yet in this session (claimed only once its checker exists; see DESIGN.md section 4)'
 NOT_APPLICABLE = {f'C{n:02d}': _NB for n in range(1, 21) if f'C{n:02d}' not in CLAIMS}
